@@ -11,7 +11,7 @@ from __future__ import annotations
 import operator
 
 from ..ref.escape import canon_text_escape
-from ..space import Const, Seq
+from ..space import Const, Prod, Seq
 
 ID = "C04"
 LEVEL = "model_checking"
@@ -170,16 +170,18 @@ class NativeError(Exception):
     pass
 
 
-def evaluate(tree, codes, spell, counter):
+def evaluate(tree, codes, spell, counter, leaves=None):
     """-> (value, is_html, parts) ; parts = list of ('plain', value) | ('html', markup)."""
     from htmltools import HTML
     if isinstance(tree, int):
         v = operand(codes[tree])
+        if leaves is not None:
+            leaves.append((v, str(v)))
         if isinstance(v, HTML):
             return v, True, [("html", str(v))]
         return v, False, [("plain", v)]
-    l, lh, lp = evaluate(tree[0], codes, spell, counter)
-    r, rh, rp = evaluate(tree[1], codes, spell, counter)
+    l, lh, lp = evaluate(tree[0], codes, spell, counter, leaves)
+    r, rh, rp = evaluate(tree[1], codes, spell, counter, leaves)
     k = counter[0]
     counter[0] += 1
     use_iadd = (spell >> k) & 1
@@ -205,13 +207,19 @@ def fn_expr(codes):
     for tree in _GROUP[n]:
         nn = count_nodes(tree)
         for spell in range(1 << nn):
+            leaves = []
             try:
-                v, is_html, parts = evaluate(tree, codes, spell, [0])
+                v, is_html, parts = evaluate(tree, codes, spell, [0], leaves)
             except NativeError:
                 skipped += 1
                 continue
             nex += 1
             desc = {"operands": codes, "grouping": repr(tree), "iadd_mask": spell}
+            changed = [t for (o, t) in leaves if str(o) != t]
+            if changed:
+                viols.append(("expr:operand-mutated", "evaluating the concatenation changed one of its operands "
+                              f"(was {changed[0]!r})", desc))
+                continue
             if not isinstance(v, HTML):
                 viols.append(("expr:not-HTML", f"concatenation result is {type(v).__name__}, not HTML", desc))
                 continue
@@ -235,12 +243,48 @@ def fn_expr(codes):
     return (mixes, (skipped,), viols, nex)
 
 
+LONG_UNITS = ["<b>&amp;\"x\"</b>", "a&b<c>d ", "é<!--&-->"]
+
+
+def fn_long(case):
+    """history: the same long string rendered as plain text and as HTML(), in both orders."""
+    from htmltools import HTML, Tag, TagList
+    unit, n, order = case
+    s = (unit * (n // len(unit) + 1))[:n]
+    viols = []
+    esc = canon_text_escape(s)
+    steps = [("plain", lambda: Tag("div", s).get_html_string(), "<div>" + esc + "</div>"),
+             ("html", lambda: Tag("p", HTML(s)).get_html_string(), "<p>" + s + "</p>"),
+             ("plain-multi", lambda: TagList(Tag("span", "k", _add_ws=False), s).get_html_string(),
+              "<span>k</span>" + esc),
+             ("html-multi", lambda: Tag("span", "k", HTML(s), _add_ws=False).get_html_string(),
+              "<span>k" + s + "</span>"),
+             ("repr", lambda: Tag("span", __import__("hv.spec", fromlist=["Repr"]).Repr(s), "z",
+                                  _add_ws=False).get_html_string(),
+              "<span>" + s + "z</span>")]
+    if order == "html-first":
+        steps = [steps[1], steps[0], steps[3], steps[2], steps[4]]
+    elif order == "multi-first":
+        steps = [steps[3], steps[2], steps[1], steps[0], steps[4]]
+    for name, f, exp in steps:
+        got = f()
+        if got != exp:
+            viols.append((f"long-string-history:{name}", f"{name} rendering of a {n}-character string after "
+                          f"{order} history is wrong", {"observed": got[:300], "expected": exp[:300]}))
+            break
+    return (True, None, viols, len(steps))
+
+
 def plan(tier):
     k = 3 if tier == "quick" else 4
     n = 5 if tier == "quick" else 6
     return [
         dict(kind="space", name="verbatim-markup", space=Seq(Const(TOKENS), 0, k), fn=fn_markup,
              note=f"all strings of <= {k} tokens over {TOKENS!r} x {len(_contexts())} contexts"),
+        dict(kind="space", name="long-string-history", fn=fn_long,
+             space=Prod(Const(LONG_UNITS), Const([1, 31, 32, 63, 64, 65, 127, 128, 129, 255, 256, 257, 1000, 4096, 70000]),
+                        Const(["plain-first", "html-first", "multi-first"])),
+             note="the same 1..70000-character string as plain text, HTML() and _repr_html_ in three orders"),
         dict(kind="space", name="concatenation-expressions", space=Seq(Const(OPERANDS), 1, n), fn=fn_expr,
              note=f"operand sequences of length <= {n} over {OPERANDS} x all groupings x all +/+= spellings"),
     ]
